@@ -81,7 +81,7 @@ PROPS["C03"] = {
 }
 
 PROPS["C07"] = {
-    "lean": ["WsVerif.Props.C07", "WsVerif.Props.C07Stream", "WsVerif.Props.C07Install", "WsVerif.Props.C07End", "WsVerif.Props.C07ReadMessage", "WsVerif.Props.C07ReadMessageFrag", "WsVerif.Props.C04ReadData", "WsVerif.Props.C04ReadDataSkip", "WsVerif.Props.C04DiscardText", "WsVerif.Bridge.C07", "WsVerif.Bridge.C04", "WsVerif.Bridge.Bodies"],
+    "lean": ["WsVerif.Props.C07", "WsVerif.Props.C07Stream", "WsVerif.Props.C07Install", "WsVerif.Props.C07End", "WsVerif.Props.C07ReadMessage", "WsVerif.Props.C07ReadMessageFrag", "WsVerif.Props.C04ReadData", "WsVerif.Props.C04ReadDataSkip", "WsVerif.Props.C04DiscardText", "WsVerif.Bridge.C07", "WsVerif.Bridge.C04", "WsVerif.Bridge.Bodies", "WsVerif.Props.C08ReadDataFragText"],
     "rule": "Reader wiring: 16 (quick) / 316 (thorough) text payloads (valid, truncated, overlong, surrogate, > U+10FFFF) under EVERY split into "
             "three fragments, with and without ping/pong (non-UTF-8 payloads) between the fragments, followed on the same reader by a binary "
             "message holding invalid UTF-8 and another text message; chunkings {whole,1,2,5}; through ReadMessage, ReadData, Reader+ReadAll "
@@ -146,7 +146,7 @@ READER_TB = [
 ]
 
 PROPS["C04"] = {
-    "lean": ["WsVerif.Props.C04", "WsVerif.Props.C04Cb", "WsVerif.Props.C04Discard", "WsVerif.Props.C04DiscardMsg", "WsVerif.Props.C04DiscardText", "WsVerif.Props.C04ReadMessage", "WsVerif.Props.C04ReadAll", "WsVerif.Props.C04ReadMessageFrag", "WsVerif.Props.C04ReadData", "WsVerif.Props.C04ReadDataSkip", "WsVerif.Props.C08ReadData", "WsVerif.Bridge.C04", "WsVerif.Props.C08Intermediate", "WsVerif.Props.C08ReadDataFrag", "WsVerif.Props.C08DiscardFrag", "WsVerif.Props.C08ReadDataHistory"],
+    "lean": ["WsVerif.Props.C04", "WsVerif.Props.C04Cb", "WsVerif.Props.C04Discard", "WsVerif.Props.C04DiscardMsg", "WsVerif.Props.C04DiscardText", "WsVerif.Props.C04ReadMessage", "WsVerif.Props.C04ReadAll", "WsVerif.Props.C04ReadMessageFrag", "WsVerif.Props.C04ReadData", "WsVerif.Props.C04ReadDataSkip", "WsVerif.Props.C08ReadData", "WsVerif.Bridge.C04", "WsVerif.Props.C08Intermediate", "WsVerif.Props.C08ReadDataFrag", "WsVerif.Props.C08DiscardFrag", "WsVerif.Props.C08ReadDataHistory", "WsVerif.Props.C08ReadDataFragText"],
     "rule": "Valid frame streams from a grammar (1-4 messages, 1-4 fragments incl. empty ones, ping/pong with 0..125-byte payloads between "
             "fragments and between messages, payload classes 0,1,2,7,8,125,126,300 (+70000 in thorough), text built from 1-4-byte code "
             "points, both sides) replayed under transport chunkings {whole,1,2,3,7,random}, EOF and data-with-EOF transports, through "
@@ -155,7 +155,7 @@ PROPS["C04"] = {
     "trusted_base": READER_TB,
     "assumptions": COMMON_ASSUME + ["caller buffers are non-empty", "callbacks read only from the reader they are given",
                                     "no earlier error on the same reader (DESIGN §7 N2)"],
-    "level_text": 'Kernel-checked: message_delivered - for every data message (any number of fragments, empty ones included, control frames interleaved anywhere, masked or not), every chunking of the transport (empty chunks, data together with io.EOF) and every sequence of positive caller buffer sizes, what Reader.Read hands out is a prefix of the concatenation of the unmasked fragment payloads; no error but the final io.EOF is possible; io.EOF is reached within (bytes + chunks + 1) Reads; then the whole message has been delivered, the transport stands exactly behind its last frame and the reader is reset like a new one. Built on C01 (chunk-independent header decoding), C02 (cipher = XOR at any offset) and a one-Read step invariant (Proofs/Reader.lean). With an OnIntermediate handler (Props/C04Cb.message_delivered_collect, the handler wsutil.ReadMessage installs): the same delivery, and when io.EOF is reached the handler has been called exactly once per interleaved control frame, in stream order, with that frame\'s opcode and exact unmasked payload (step_cb / reads_cb in Proofs/ReaderCb thread the handler\'s log through the stream invariant). With CheckUTF8 on: C07.text_message. PARTIAL in scope: reader without receive extension, transport not delivering its last bytes together with a failure; Discard: message_skipped / message_skipped_any - NextFrame then Discard from anywhere inside a message consumes exactly the rest of it (fragments and interleaved controls) for any chunking, CheckUTF8 on or off, no error, transport at the next message. The helper loops themselves: readAll_message (ioutil.ReadAll over the reader, with and without the collecting handler), readMessage_single / readMessage_fragmented (wsutil.ReadMessage on unfragmented and on fragmented non-text messages, CheckUTF8 on as in the helper: controls first, then the one message; text: C07.readMessage_single_text). fragmented text: C07.readMessage_fragmented_text). The ReadData family (ReadClientData, ReadServerText, ...): readData_single(_text), and over HISTORIES on one connection readData_after_history / readData_text_after_history (Props/C04ReadDataSkip, C08ReadData) - behind any number of pings and unwanted unfragmented messages in any order, exactly one pong per ping (identical payload, in order) has been written, nothing else, and the first wanted message is returned as if it had come first (text iff well-formed); C05ReadData / C16ReadData: an offending frame or a cut payload behind such a history. A FRAGMENTED wanted non-text message through ReadData with pings (0..125 bytes) and pongs between its fragments, behind any such history: C08ReadDataFrag.readData_fragmented_after_history (payloads concatenated, first opcode, no error, transport behind the message, exactly the pongs of the history then those of the pings between the fragments written) - C08Intermediate.readAll_message_pongs for the non-checking reader transported through Proofs/ReaderBinG (the strip simulation for any handler that ignores the UTF-8 fields). Fragmented UNWANTED messages (text or not) with pings and pongs between their fragments are history items too (C08DiscardFrag.loop_skip_frag, C08ReadDataHistory.loop_history2 and readData_*_after_any_history). A fragmented TEXT message as the wanted one through ReadData, close frames between fragments: stream oracle + exact correspondence (~5k quick / ~100k thorough cases), not a theorem.',
+    "level_text": 'Kernel-checked: message_delivered - for every data message (any number of fragments, empty ones included, control frames interleaved anywhere, masked or not), every chunking of the transport (empty chunks, data together with io.EOF) and every sequence of positive caller buffer sizes, what Reader.Read hands out is a prefix of the concatenation of the unmasked fragment payloads; no error but the final io.EOF is possible; io.EOF is reached within (bytes + chunks + 1) Reads; then the whole message has been delivered, the transport stands exactly behind its last frame and the reader is reset like a new one. Built on C01 (chunk-independent header decoding), C02 (cipher = XOR at any offset) and a one-Read step invariant (Proofs/Reader.lean). With an OnIntermediate handler (Props/C04Cb.message_delivered_collect, the handler wsutil.ReadMessage installs): the same delivery, and when io.EOF is reached the handler has been called exactly once per interleaved control frame, in stream order, with that frame\'s opcode and exact unmasked payload (step_cb / reads_cb in Proofs/ReaderCb thread the handler\'s log through the stream invariant). With CheckUTF8 on: C07.text_message. PARTIAL in scope: reader without receive extension, transport not delivering its last bytes together with a failure; Discard: message_skipped / message_skipped_any - NextFrame then Discard from anywhere inside a message consumes exactly the rest of it (fragments and interleaved controls) for any chunking, CheckUTF8 on or off, no error, transport at the next message. The helper loops themselves: readAll_message (ioutil.ReadAll over the reader, with and without the collecting handler), readMessage_single / readMessage_fragmented (wsutil.ReadMessage on unfragmented and on fragmented non-text messages, CheckUTF8 on as in the helper: controls first, then the one message; text: C07.readMessage_single_text). fragmented text: C07.readMessage_fragmented_text). The ReadData family (ReadClientData, ReadServerText, ...): readData_single(_text), and over HISTORIES on one connection readData_after_history / readData_text_after_history (Props/C04ReadDataSkip, C08ReadData) - behind any number of pings and unwanted unfragmented messages in any order, exactly one pong per ping (identical payload, in order) has been written, nothing else, and the first wanted message is returned as if it had come first (text iff well-formed); C05ReadData / C16ReadData: an offending frame or a cut payload behind such a history. A FRAGMENTED wanted non-text message through ReadData with pings (0..125 bytes) and pongs between its fragments, behind any such history: C08ReadDataFrag.readData_fragmented_after_history (payloads concatenated, first opcode, no error, transport behind the message, exactly the pongs of the history then those of the pings between the fragments written) - C08Intermediate.readAll_message_pongs for the non-checking reader transported through Proofs/ReaderBinG (the strip simulation for any handler that ignores the UTF-8 fields). Fragmented UNWANTED messages (text or not) with pings and pongs between their fragments are history items too (C08DiscardFrag.loop_skip_frag, C08ReadDataHistory.loop_history2 and readData_*_after_any_history). A fragmented TEXT message as the wanted one (C08ReadDataFragText.readData_fragmented_text_after_any_history): delivered, with the pongs written, iff the whole payload is well-formed UTF-8 wherever the fragment boundaries fall - through the text simulation for any handler (Proofs/ReaderBinG2) and 'the control handler never reports io.EOF' (Proofs/HandlerEof). Close frames between fragments: stream oracle + exact correspondence (~5k quick / ~100k thorough cases), not a theorem.',
     "level_note": 'Trusted: Lean kernel, Spec/Stream.lean (oracle), Model/Reader.lean as a hand model tied by correspondence, harness.',
 }
 
@@ -188,7 +188,7 @@ PROPS["C16"] = {
 }
 
 PROPS["C08"] = {
-    "lean": ["WsVerif.Props.C08", "WsVerif.Props.C08ReadData", "WsVerif.Props.C08ReadDataClose", "WsVerif.Props.C08Intermediate", "WsVerif.Props.C08ReadDataFrag", "WsVerif.Props.C08DiscardFrag", "WsVerif.Props.C08ReadDataHistory", "WsVerif.Props.C04Cb", "WsVerif.Props.C04ReadAll", "WsVerif.Props.C04ReadMessageFrag", "WsVerif.Bridge.C08"],
+    "lean": ["WsVerif.Props.C08", "WsVerif.Props.C08ReadData", "WsVerif.Props.C08ReadDataClose", "WsVerif.Props.C08Intermediate", "WsVerif.Props.C08ReadDataFrag", "WsVerif.Props.C08DiscardFrag", "WsVerif.Props.C08ReadDataHistory", "WsVerif.Props.C08ReadDataFragText", "WsVerif.Props.C04Cb", "WsVerif.Props.C04ReadAll", "WsVerif.Props.C04ReadMessageFrag", "WsVerif.Bridge.C08"],
     "rule": "ControlHandler.Handle (masked source on the server side), ControlFrameHandler and HandleControlMessage (Client/Server variants) "
             "for ping, pong, close x payload lengths 0..125 (all in thorough; 0..12, every 9th, 118..125 in quick) x both sides; all 65,536 "
             "close codes (thorough; 1/13 + the boundary windows in quick) with no / valid / truncated / 0xFF reasons; 1-byte close payloads; "
@@ -446,7 +446,7 @@ PROPS["C12"] = {
 }
 
 PROPS["C18"] = {
-    "lean": ["WsVerif.Props.C18", "WsVerif.Props.C06Sessions", "WsVerif.Props.C04ReadDataSkip", "WsVerif.Props.C08ReadData", "WsVerif.Props.C14", "WsVerif.Bridge.C18", "WsVerif.Bridge.Bodies", "WsVerif.Props.C08ReadDataHistory"],
+    "lean": ["WsVerif.Props.C18", "WsVerif.Props.C06Sessions", "WsVerif.Props.C04ReadDataSkip", "WsVerif.Props.C08ReadData", "WsVerif.Props.C14", "WsVerif.Bridge.C18", "WsVerif.Bridge.Bodies", "WsVerif.Props.C08ReadDataHistory", "WsVerif.Props.C08ReadDataFragText"],
     "rule": "Differential: an instance is driven through a history, reset, driven through an `after` sequence; a freshly constructed instance "
             "with the same configuration is driven through the same `after` sequence; both observations (every result, every destination "
             "write) must be equal. wsutil.Writer.Reset: 11 histories (unflushed data, several fragments, flushed message, Grow, extension "
